@@ -180,7 +180,7 @@ func (r *Run) AllWired(pkg, typ, all, why string) {
 			continue
 		}
 		sig := m.Type().(*types.Signature)
-		if sig.Params().Len() != 0 || sig.Results().Len() != 1 || !isErrorType(sig.Results().At(0).Type()) {
+		if sig.Results().Len() != 1 || !isErrorType(sig.Results().At(0).Type()) {
 			continue
 		}
 		n++
@@ -650,4 +650,179 @@ func (r *Run) StoreBefore(fnName, storePrefix, guardFull, why string) {
 		}
 	}
 	r.viol("K2-store-before-guard", fnName, construct, "store not found", why, file, line)
+}
+
+// GuardLike: fn has a rejecting guard whose condition (without context) starts with prefix.
+func (r *Run) GuardLike(fnName, prefix, why string) {
+	fn := r.fn(fnName)
+	if fn == nil {
+		return
+	}
+	prefix = r.X(prefix)
+	file, line := r.P.FnPos(fn)
+	for _, g := range r.P.Info(fn).guards {
+		if g.Reject != "" && strings.HasPrefix(g.RejCond.String(), prefix) {
+			r.pass("K3-guard", fnName, "reject-if "+prefix+"…", fmt.Sprintf("found at %s:%d", g.File, g.Line), why, g.File, g.Line)
+			return
+		}
+	}
+	r.viol("K3-guard", fnName, "reject-if "+prefix+"…", fmt.Sprintf("guard missing or weakened: %s no longer rejects on a condition of the form %s…", fnName, prefix), why, file, line)
+}
+
+// HasPrefix: fn has an effect whose canonical form starts with prefix.
+func (r *Run) HasPrefix(fnName, prefix, why string) {
+	fn := r.fn(fnName)
+	if fn == nil {
+		return
+	}
+	prefix = r.X(prefix)
+	for _, e := range r.P.Effects(fn) {
+		if strings.HasPrefix(e.Canon, prefix) {
+			r.pass("K4-effect", fnName, prefix+"…", fmt.Sprintf("present at %s:%d", e.File, e.Line), why, e.File, e.Line)
+			return
+		}
+	}
+	file, line := r.P.FnPos(fn)
+	r.viol("K4-effect", fnName, prefix+"…", fmt.Sprintf("%s no longer performs an effect of the form `%s…`", fnName, prefix), why, file, line)
+}
+
+// RandSeeds: every math/rand.NewSource call in the region has a seed argument among the allowed
+// canonical forms.
+func (r *Run) RandSeeds(reg map[*ssa.Function]*ssa.Function, allowed []string, why string) {
+	n := 0
+	for f := range reg {
+		name := r.P.FuncName(f)
+		if name == "" || f.Blocks == nil {
+			continue
+		}
+		for _, cs := range r.P.Calls(f, false) {
+			if cs.Callee != "math/rand.NewSource" {
+				continue
+			}
+			n++
+			got := cs.Path.Args[0].String()
+			ok := false
+			for _, a := range allowed {
+				if got == a {
+					ok = true
+				}
+			}
+			if ok {
+				r.pass("K4-rand-seed", name, "seed "+got, "", why, cs.File, cs.Line)
+			} else {
+				r.viol("K4-rand-seed", name, "seed "+got, fmt.Sprintf("random source at %s:%d is seeded with `%s`, which is not derived from the proof momentum (allowed: %s)", cs.File, cs.Line, got, strings.Join(allowed, ", ")), why, cs.File, cs.Line)
+			}
+		}
+	}
+	if n == 0 {
+		r.viol("vacuous-rule", "", "rand seeds", "no rand.NewSource found in the region", why, "", 0)
+	}
+}
+
+// NoMakeThenAppend: in the listed functions, no slice made with a non-zero length is the base of an
+// append (directly, or through the variable/field it was stored in).
+func (r *Run) NoMakeThenAppend(fnNames []string, why string) {
+	for _, fnName := range fnNames {
+		fn := r.fn(fnName)
+		if fn == nil {
+			continue
+		}
+		env := r.P.Env(fn)
+		file, line := r.P.FnPos(fn)
+		// collect canonical "homes" of slices made with non-zero length
+		sized := map[string]ssa.Instruction{}
+		for _, b := range fn.Blocks {
+			for _, in := range b.Instrs {
+				ms, ok := in.(*ssa.MakeSlice)
+				if !ok {
+					continue
+				}
+				if c, isC := ms.Len.(*ssa.Const); isC && c.Int64() == 0 {
+					continue
+				}
+				for _, ref := range *ms.Referrers() {
+					switch x := ref.(type) {
+					case *ssa.Store:
+						sized[env.of(x.Addr).String()] = in
+					case *ssa.Call:
+						if bi, ok := x.Call.Value.(*ssa.Builtin); ok && bi.Name() == "append" && x.Call.Args[0] == ssa.Value(ms) {
+							f2, l2 := r.P.Pos(x.Pos())
+							r.viol("K10-make-then-append", fnName, "make-then-append", fmt.Sprintf("append at %s:%d extends a slice that was made with a non-zero length", f2, l2), why, f2, l2)
+						}
+					}
+				}
+			}
+		}
+		bad := false
+		for _, b := range fn.Blocks {
+			for _, in := range b.Instrs {
+				c, ok := in.(*ssa.Call)
+				if !ok {
+					continue
+				}
+				bi, ok := c.Call.Value.(*ssa.Builtin)
+				if !ok || bi.Name() != "append" {
+					continue
+				}
+				// base loaded from a home that received a sized make
+				if u, ok := c.Call.Args[0].(*ssa.UnOp); ok {
+					if _, hit := sized[env.of(u.X).String()]; hit {
+						f2, l2 := r.P.Pos(c.Pos())
+						r.viol("K10-make-then-append", fnName, "make-then-append", fmt.Sprintf("append at %s:%d extends %s, which was made with a non-zero length: the result has zero-valued leading entries", f2, l2, env.of(u.X).String()), why, f2, l2)
+						bad = true
+					}
+				}
+			}
+		}
+		if !bad {
+			r.pass("K10-make-then-append", fnName, "make-then-append", "no append to a pre-sized slice", why, file, line)
+		}
+	}
+}
+
+// MustPassUnless: every success exit of fn passes a successful call matching `match`, except on
+// paths that take an edge on which canonical condition `unless` holds.
+func (r *Run) MustPassUnless(fnName, match, unless, why string) {
+	fn := r.fn(fnName)
+	if fn == nil {
+		return
+	}
+	unless = r.X(unless)
+	file, line := r.P.FnPos(fn)
+	construct := "success only through " + match + " unless " + unless
+	sites := r.P.FindCalls(fn, match, false)
+	if len(sites) == 0 {
+		r.viol("K2-must-pass", fnName, construct, fnName+" no longer calls "+match, why, file, line)
+		return
+	}
+	fi := r.P.Info(fn)
+	type edge struct{ a, b *ssa.BasicBlock }
+	cutE := map[edge]bool{}
+	cutB := map[*ssa.BasicBlock]bool{}
+	for _, cs := range sites {
+		if from, okSucc := r.P.nilErrEdge(cs.Instr); from != nil {
+			cutE[edge{from, okSucc}] = true
+		} else {
+			cutB[cs.Instr.Block()] = true
+		}
+	}
+	nUnless := 0
+	for _, g := range fi.guards {
+		if g.Cond.String() == unless {
+			cutE[edge{g.Block, g.Block.Succs[0]}] = true
+			nUnless++
+		} else if g.Cond.Negate().String() == unless {
+			cutE[edge{g.Block, g.Block.Succs[1]}] = true
+			nUnless++
+		}
+	}
+	reach := reachableAvoiding(fn, func(a, b *ssa.BasicBlock) bool { return cutE[edge{a, b}] }, func(b *ssa.BasicBlock) bool { return cutB[b] })
+	for b := range fi.okBlock {
+		if reach[b] {
+			f2, l2 := r.P.Pos(lastInstr(b).Pos())
+			r.viol("K2-must-pass", fnName, construct, fmt.Sprintf("the success return at %s:%d is reachable without a successful %s on a path where %s does not hold", f2, l2, match, unless), why, f2, l2)
+			return
+		}
+	}
+	r.pass("K2-must-pass", fnName, construct, fmt.Sprintf("%d call site(s), %d exempting branch(es)", len(sites), nUnless), why, sites[0].File, sites[0].Line)
 }
